@@ -170,6 +170,19 @@ func (k *keyManagementContext) checkMessageCounter(message dataMsg) error {
 	return nil
 }
 
+// macKeysToReveal returns copies of every MAC key that is waiting to be revealed or has been used
+// to accept a message under the key pairs still held
+func (k *keyManagementContext) macKeysToReveal() []macKey {
+	var ret []macKey
+	for _, key := range k.oldMACKeys {
+		ret = append(ret, append(macKey{}, key...))
+	}
+	for _, item := range k.macKeyHistory.items {
+		ret = append(ret, append(macKey{}, item.receivingKey...))
+	}
+	return ret
+}
+
 func (k *keyManagementContext) revealMACKeys() []macKey {
 	ret := k.oldMACKeys
 	k.oldMACKeys = []macKey{}
